@@ -62,6 +62,8 @@ class Plane:
 
         if mask is None:
             mask = np.copy(self._amplitude)
+        else:
+            mask = np.array(mask)
         
         mask[mask != 0] = 1
         self._mask = mask
